@@ -387,6 +387,21 @@ def gotTlsDescFill (ok : OutputKind) (dynsym : Nat) (tls : TlsInfo) (raw got : B
   if ok.isStaticExecutable then Option.none
   else some ⟨[0, 0], [⟨got, .tlsDesc, dynsym, if dynsym = 0 then raw - tls.start else 0⟩]⟩
 
+/-- `process_resolution`, non-TLS part, first GOT entry (`take_next_got_entry` #1).
+Rust precedence: `is_dynamic() || ((export_dynamic && interposable) && !is_ifunc())`. -/
+def gotFirstFill (ok : OutputKind) (relr : Bool) (f : Flags) (dynsym : Nat) (raw got : BitVec 64) : GotFill :=
+  if f.dynamic || ((f.exportDynamic && f.interposable) && !f.ifunc) then
+    ⟨[0], [⟨got, .gotEntry, dynsym, 0⟩]⟩
+  else if f.ifunc then ⟨[0], [⟨got, .irelative, 0, raw⟩]⟩
+  else if f.isAddress && ok.isRelocatable then
+    let s := writeAddressRelocation relr got raw
+    ⟨[s.stored], s.dyn⟩
+  else ⟨[raw], []⟩
+
+/-- `process_resolution`, the `needs_ifunc_got_for_address()` entry at `got_address + 8`. -/
+def gotIfuncAddrFill (ok : OutputKind) (relr : Bool) (got plt : BitVec 64) : Site :=
+  if ok.isRelocatable then writeAddressRelocation relr (got + 8) plt else ⟨plt, []⟩
+
 /-- `TableWriter::process_resolution` for a resolution that has a GOT address. -/
 def processResolution (ok : OutputKind) (relr : Bool) (f : Flags) (dynsym : Nat) (tls : TlsInfo)
     (raw got plt : BitVec 64) : Option GotFill :=
@@ -401,17 +416,9 @@ def processResolution (ok : OutputKind) (relr : Bool) (f : Flags) (dynsym : Nat)
       | some c => some ⟨a.words ++ b.words ++ c.words, a.dyn ++ b.dyn ++ c.dyn⟩
     else some ⟨a.words ++ b.words, a.dyn ++ b.dyn⟩
   else
-    -- Rust precedence: `is_dynamic() || ((export_dynamic && interposable) && !is_ifunc())`
-    let first : GotFill :=
-      if f.dynamic || ((f.exportDynamic && f.interposable) && !f.ifunc) then
-        ⟨[0], [⟨got, .gotEntry, dynsym, 0⟩]⟩
-      else if f.ifunc then ⟨[0], [⟨got, .irelative, 0, raw⟩]⟩
-      else if f.isAddress && ok.isRelocatable then
-        let s := writeAddressRelocation relr got raw
-        ⟨[s.stored], s.dyn⟩
-      else ⟨[raw], []⟩
+    let first := gotFirstFill ok relr f dynsym raw got
     if f.ifuncGotForAddress then
-      let s : Site := if ok.isRelocatable then writeAddressRelocation relr (got + 8) plt else ⟨plt, []⟩
+      let s := gotIfuncAddrFill ok relr got plt
       some ⟨first.words ++ [s.stored], first.dyn ++ s.dyn⟩
     else some first
 
